@@ -85,7 +85,7 @@ func ruleR15_1(r *Run) {
 			continue
 		}
 		for _, op := range []ssa.Value{bo.X, bo.Y} {
-			if c, ok := op.(*ssa.Call); ok && c.Call.StaticCallee() != nil && strings.HasPrefix(c.Call.StaticCallee().String(), "hash/crc32.Checksum") {
+			if c, ok := op.(*ssa.Call); ok && c.Call.StaticCallee() != nil && (strings.HasPrefix(c.Call.StaticCallee().String(), "hash/crc32.Checksum") || wholeSliceCRCHelper(c.Call.StaticCallee())) {
 				cmp = ifi
 				if bo.Op == token.NEQ {
 					eqEdge = 1
@@ -700,4 +700,39 @@ func ruleR15_5(r *Run) {
 			"the returned bytes are backed by a buffer that the function puts back into a sync.Pool: the next call overwrites a value already handed to the caller", firstNonEmpty(bad, w.fpos(f)))
 	}
 	r.check(n >= 3, "dvid:integrity-paths", fmt.Sprintf("%d integrity-relevant sites examined", n), "sites not found", "-")
+}
+
+// wholeSliceCRCHelper: a repository function that returns crc32.Checksum*(p, …) of one of its own
+// slice parameters as a whole (a helper that checksums re-slicings of the parameter is not accepted:
+// whether its pieces cover every byte is not decided here).
+func wholeSliceCRCHelper(g *ssa.Function) bool {
+	if g == nil || len(g.Blocks) == 0 || !inRepo(g) {
+		return false
+	}
+	for _, c := range calls(g) {
+		callee := staticCallee(c)
+		if callee == nil || !strings.HasPrefix(callee.String(), "hash/crc32.Checksum") || len(c.Common().Args) == 0 {
+			continue
+		}
+		arg := c.Common().Args[0]
+		isParam := false
+		for _, p := range g.Params {
+			if ssa.Value(p) == arg {
+				isParam = true
+			}
+		}
+		if !isParam {
+			return false
+		}
+		cv, ok := c.(*ssa.Call)
+		if !ok {
+			return false
+		}
+		for _, b := range g.Blocks {
+			if ret, ok := b.Instrs[len(b.Instrs)-1].(*ssa.Return); ok && len(ret.Results) == 1 && ret.Results[0] == ssa.Value(cv) {
+				return true
+			}
+		}
+	}
+	return false
 }
